@@ -38,6 +38,7 @@ func (e *fnEnc) instr(in ssa.Instruction) {
 			}
 		}
 		e.allocs = append(e.allocs, ref)
+		e.allocs = append(e.allocs, e.embRefsOf(ref, pt)...)
 		e.val[in] = []Term{{ref, "Int", in.Type()}}
 		if isStructT(U, pt) {
 			d := &addrDesc{kind: aStructRef, ref: ref, T: pt}
@@ -113,10 +114,17 @@ func (e *fnEnc) instr(in ssa.Instruction) {
 		e.binop(in)
 	case *ssa.ChangeInterface:
 		x := e.get(in.X)
-		e.val[in] = []Term{{x.S, e.U.sortOf(in.Type()), in.Type()}}
+		if x.Sort == "Type" && e.U.sortOf(in.Type()) == "Any" {
+			e.define(in, Term{S: fmt.Sprintf("(anyOfType %s)", x.S), Sort: "Any"})
+			r := e.get(in)
+			e.assert(fmt.Sprintf("(and (inv.Any %s) (= (= %s nilAny) (= %s ty.nil)))", r.S, r.S, x.S))
+			return
+		}
 		if x.Sort != e.U.sortOf(in.Type()) {
 			e.unsupported(in, "interface change across sorts")
+			return
 		}
+		e.val[in] = []Term{{x.S, x.Sort, in.Type()}}
 	case *ssa.ChangeType:
 		x := e.get(in.X)
 		if x.Sort != U.sortOf(in.Type()) {
@@ -133,11 +141,7 @@ func (e *fnEnc) instr(in ssa.Instruction) {
 			return
 		}
 		t := in.X.Type()
-		e.define(in, Term{S: fmt.Sprintf("(%s %s)", U.boxSym(t), x.S), Sort: "Any"})
-		b := e.get(in)
-		e.assert(fmt.Sprintf("(= (dyn %s) %s)", b.S, tagSym(U.typeKey(t))))
-		e.assert(fmt.Sprintf("(= (%s %s) %s)", U.unboxSym(t), b.S, x.S))
-		e.assert(fmt.Sprintf("(inv.Any %s)", b.S))
+		e.define(in, Term{S: U.boxTerm(t, x.S), Sort: "Any"})
 	case *ssa.Extract:
 		ts := e.getN(in.Tuple)
 		if in.Index >= len(ts) {
@@ -181,7 +185,12 @@ func (e *fnEnc) instr(in ssa.Instruction) {
 		fn := in.Fn.(*ssa.Function)
 		c := U.fnCtorOf(fn)
 		parts := []string{c.Sym}
-		for _, b := range in.Bindings {
+		for i, b := range in.Bindings {
+			if c.ByVal[i] {
+				d := e.descOf(b)
+				parts = append(parts, e.loadDesc(d, e.curHeap).S)
+				continue
+			}
 			parts = append(parts, e.get(b).S)
 		}
 		s := c.Sym
@@ -238,6 +247,24 @@ func (e *fnEnc) instr(in ssa.Instruction) {
 	}
 }
 
+// embRefsOf lists the refs of the structs embedded (by value) in a struct at ref.
+func (e *fnEnc) embRefsOf(ref string, t types.Type) []string {
+	var out []string
+	st, ok := types.Unalias(t).Underlying().(*types.Struct)
+	if !ok || e.U.sortOf(t) == "RV" {
+		return nil
+	}
+	for i := 0; i < st.NumFields(); i++ {
+		f := st.Field(i)
+		if isStructT(e.U, f.Type()) {
+			r := e.U.embRef(ref, t, f)
+			out = append(out, r)
+			out = append(out, e.embRefsOf(r, f.Type())...)
+		}
+	}
+	return out
+}
+
 func (e *fnEnc) note(s string) {
 	for _, n := range e.notes {
 		if n == s {
@@ -287,6 +314,11 @@ func (e *fnEnc) loadDesc(d *addrDesc, heap heapState) Term {
 	case aStructRef:
 		return U.loadAt(d.ref, d.T, ht)
 	case aGlobal:
+		// globals declared in the prelude as G.pkg.name are immutable
+		// constants (stores to them are frame violations)
+		if sg, ok := U.Sigs["G."+strings.TrimPrefix(d.heap.Key, "global.")]; ok {
+			return Term{sg.Name, sg.Res, d.T}
+		}
 		return Term{ht(d.heap), d.heap.Elem, d.T}
 	case aLocalArr:
 		if t, ok := e.localArr[d.arr][d.idx]; ok {
@@ -301,6 +333,13 @@ func (e *fnEnc) loadDesc(d *addrDesc, heap heapState) Term {
 }
 
 func (e *fnEnc) load(in *ssa.UnOp) {
+	if fv, ok := in.X.(*ssa.FreeVar); ok {
+		if t, byVal := e.capVal[fv]; byVal {
+			t.T = in.Type()
+			e.val[in] = []Term{t}
+			return
+		}
+	}
 	d := e.descOf(in.X)
 	if d == nil {
 		e.unsupported(in, "load through unknown address")
@@ -326,6 +365,9 @@ func (e *fnEnc) storeDesc(d *addrDesc, v Term) {
 	case aHeapField, aDeref:
 		e.setHeap(d.heap, fmt.Sprintf("(store %s %s %s)", e.curHeapTerm(d.heap), d.ref, v.S))
 	case aGlobal:
+		if _, ok := U.Sigs["G."+strings.TrimPrefix(d.heap.Key, "global.")]; ok {
+			e.oblig("frame", "immutable-global:"+d.heap.Key, nil, e.curReach, "false", token.NoPos)
+		}
 		e.setHeap(d.heap, v.S)
 	case aStructRef:
 		e.storeStruct(d.ref, d.T, v)
@@ -503,14 +545,25 @@ func (e *fnEnc) sliceOp(in *ssa.Slice) {
 		}
 		term := s + ".empty"
 		zs := U.zero(U.sortOf(arrT.Elem()))
+		var elems []string
 		for i := 0; i < int(arrT.Len()); i++ {
 			el := zs
 			if t, ok := e.localArr[al][i]; ok {
 				el = t.S
 			}
+			elems = append(elems, el)
 			term = fmt.Sprintf("(%s.snoc %s %s)", s, term, el)
 		}
-		nt := e.define(in, Term{S: term, Sort: s})
+		var nt Term
+		if s == "Sl.Any" {
+			// []any literals are only ever varargs of fmt-style functions: no
+			// structural definition (keeps those queries quantifier-free)
+			nt = Term{e.fresh("lit."+in.Name(), s), s, in.Type()}
+			e.val[in] = []Term{nt}
+		} else {
+			nt = e.define(in, Term{S: term, Sort: s})
+		}
+		e.lits[nt.S] = elems
 		e.assert(fmt.Sprintf("(= (%s.len %s) %d)", s, nt.S, arrT.Len()))
 		for i := 0; i < int(arrT.Len()); i++ {
 			el := zs
@@ -585,7 +638,7 @@ func (e *fnEnc) typeAssert(in *ssa.TypeAssert) {
 		vt := Term{vc, val.Sort, at}
 		e.typeFacts(vt, okc)
 		if _, isI := types.Unalias(at).Underlying().(*types.Interface); !isI {
-			e.assert(fmt.Sprintf("(=> %s (= %s (%s %s)))", okc, x.S, U.boxSym(at), vc))
+			e.assert(fmt.Sprintf("(=> %s (= %s %s))", okc, x.S, U.boxTerm(at, vc)))
 		}
 		e.val[in] = []Term{vt, {okc, "Bool", types.Typ[types.Bool]}}
 		return
@@ -594,7 +647,7 @@ func (e *fnEnc) typeAssert(in *ssa.TypeAssert) {
 	nt := e.define(in, val)
 	e.typeFacts(nt, "")
 	if _, isI := types.Unalias(at).Underlying().(*types.Interface); !isI {
-		e.assert(fmt.Sprintf("(=> %s (= %s (%s %s)))", e.curReach, x.S, U.boxSym(at), nt.S))
+		e.assert(fmt.Sprintf("(=> %s (= %s %s))", e.curReach, x.S, U.boxTerm(at, nt.S)))
 	}
 }
 
@@ -608,6 +661,9 @@ func (e *fnEnc) ret(in *ssa.Return) {
 }
 
 func (e *fnEnc) checkPosts(res []Term, pos token.Pos, where string) {
+	// vacuity canary: this return must be reachable under the requires
+	v := e.oblig("vacuity", "reach-"+where, nil, e.curReach, "true", pos)
+	v.ExpectSat = true
 	if e.con == nil {
 		return
 	}
@@ -632,48 +688,6 @@ func (e *fnEnc) checkPosts(res []Term, pos token.Pos, where string) {
 		o := e.oblig("post", clauseName(c), c.Props, e.curReach, t.S, pos)
 		o.Clause = c
 		o.Note = where
-	}
-	// frame: heaps changed must be within assigns
-	if e.con.HasAssigns {
-		allowed := map[string]bool{}
-		star := false
-		for _, a := range e.con.Assigns {
-			if a == "*" {
-				star = true
-			}
-			allowed[a] = true
-		}
-		if !star {
-			for _, k := range sortedHeapKeys(e.curHeap) {
-				if allowed[k] {
-					continue
-				}
-				h := e.U.heaps[k]
-				cur := e.curHeap[k]
-				ent := e.heapEntrySym(k)
-				if cur == ent {
-					continue
-				}
-				// changes at refs allocated in this activation are allowed
-				var goal string
-				if strings.HasPrefix(k, "global.") {
-					goal = fmt.Sprintf("(= %s %s)", cur, ent)
-				} else {
-					q := "q!r"
-					conds := []string{}
-					for _, a := range e.allocs {
-						conds = append(conds, fmt.Sprintf("(= %s %s)", q, a))
-					}
-					body := fmt.Sprintf("(= (select %s %s) (select %s %s))", cur, q, ent, q)
-					if len(conds) > 0 {
-						body = fmt.Sprintf("(or %s %s)", strings.Join(conds, " "), body)
-					}
-					goal = fmt.Sprintf("(forall ((%s Int)) %s)", q, body)
-				}
-				o := e.oblig("frame", "assigns:"+h.Key, nil, e.curReach, goal, pos)
-				o.Note = where
-			}
-		}
 	}
 }
 
